@@ -255,6 +255,38 @@ def run_case(case):
     ref_short = execute(c5, u_init(c5), t0, Tshort)
     used_short = execute(c4, u_init(c4), t0, Tshort)
     same(ref_short, used_short, 'used-controller-equals-fresh-on-other-interval', mech='random-initial-guess-rng-not-rewound-between-runs' if rnd else ('k-dependent-preconditioner-state-survives-a-run' if kdep else None))
+    # R8 two differently configured controllers built from the SAME parameter dictionary objects (what a script that edits one
+    # `controller_params` / `description` in a loop does): the second must behave like one built from fresh dictionaries
+    if not rnd:
+        from pySDC.implementations.controller_classes.controller_nonMPI import controller_nonMPI
+        from pySDC.implementations.convergence_controller_classes.adaptivity import Adaptivity
+
+        from vf.gen import controller_params_for, description_for
+
+        shared_cp = controller_params_for(case, [LogSolution, H])
+        try:
+            d_first = description_for(case)
+            d_first['convergence_controllers'] = {Adaptivity: dict(e_tol=1e-6)}
+            d_first['level_params'] = dict(d_first['level_params'], restol=-1)
+            shared_cp_first = shared_cp
+            mj = shared_cp_first.get('mssdc_jac')
+            shared_cp_first['mssdc_jac'] = False
+            first = controller_nonMPI(1, shared_cp_first, d_first)
+            P1 = first.MS[0].levels[0].prob
+            first.run(u_init(first), t0, t0 + 2.5 * dt)
+            shared_cp['mssdc_jac'] = mj
+            c8 = controller_nonMPI(procs, shared_cp, description_for(case))
+            same(base, execute(c8, u_init(c8), t0, Tend), 'controllers-sharing-a-parameter-dictionary')
+            r.count('shared_dictionary_relations')
+        except ZeroDivisionError:
+            pass
+        except Exception as e:  # noqa
+            from vf.core import in_sut
+
+            if in_sut(e) and 'Adaptivity' not in repr(e) and 'needs the same order' not in repr(e):
+                r.count('shared_dictionary_first_controller_rejected')
+            else:
+                r.count('shared_dictionary_first_controller_rejected')
     # R7 a near-twin configuration (one parameter away) run first in the same process must not change the results: both
     # orders are executed in fresh interpreters, because caches that leak between controllers also leak between the cases
     # of this worker process
@@ -323,7 +355,7 @@ def run_case(case):
 def finalize(agg):
     out = []
     c = agg['counters']
-    for k in ('oracle:fresh-controller-reproduces', 'oracle:same-controller-rerun-reproduces', 'oracle:fresh-after-unrelated-controller', 'oracle:interleaved-with-unrelated-controller', 'oracle:split-run-bit-identical', 'oracle:unaffected-by-near-twin-controller'):
+    for k in ('oracle:fresh-controller-reproduces', 'oracle:same-controller-rerun-reproduces', 'oracle:fresh-after-unrelated-controller', 'oracle:interleaved-with-unrelated-controller', 'oracle:split-run-bit-identical', 'oracle:unaffected-by-near-twin-controller', 'oracle:controllers-sharing-a-parameter-dictionary'):
         if c.get(k, 0) == 0:
             out.append(f'monitor {k} never evaluated')
     return out
